@@ -7,16 +7,28 @@ import * as C03 from './C03.mjs';
 import * as C04 from './C04.mjs';
 import * as C05 from './C05.mjs';
 import * as C11 from './C11.mjs';
+import * as C06 from './C06.mjs';
+import * as C10 from './C10.mjs';
 
 export const id = 'C12';
-const SOURCES = { C01, C02, C03, C04, C05, C11 };
+const SOURCES = { C01, C02, C03, C04, C05, C11, C06, C10 };
 
 export function* generate({ tier, seed }) {
   const rng = mulberry32(seed * 2654435761 + 19);
-  const keep = tier === 'quick' ? { C01: 0.25, C02: 0.12, C03: 0.5, C04: 0.4, C05: 0.5, C11: 0.5 } : { C01: 0.5, C02: 0.1, C03: 1, C04: 0.5, C05: 1, C11: 0.5 };
+  const keep = tier === 'quick' ? { C01: 0.25, C02: 0.12, C03: 0.5, C04: 0.4, C05: 0.5, C11: 0.5, C06: 0.25, C10: 0.08 } : { C01: 0.5, C02: 0.1, C03: 1, C04: 0.5, C05: 1, C11: 0.5, C06: 0.5, C10: 0.2 };
   for (const [name, mod] of Object.entries(SOURCES)) {
     for (const g of mod.generate({ tier, seed })) {
       if (rng() > keep[name]) continue;
+      if (name === 'C06') {
+        if (g.spec.thunk !== 't0') continue;
+        g.spec = { env: g.spec.env, thunks: [{ name: 't0' }] };
+      }
+      if (name === 'C10') {
+        const comp = g.variants.find((v) => v.vid === 'composed');
+        g.src = comp.src;
+        g.spec = { env: g.spec.env, thunks: g.spec.thunks.map((t) => ({ name: t })) };
+        g.variants = [{ vid: 'c', options: comp.options }];
+      }
       const vs = g.variants.slice(0, tier === 'quick' ? 1 : 2);
       const variants = [];
       for (const v of vs) {
